@@ -3,6 +3,8 @@
 //! runs of the two shipped templates) and prints what they did, together with the sampling witness
 //! recovered from the produced tours.
 use std::any::Any;
+use std::io::{BufRead, BufReader, Write};
+use std::process::{Child, ChildStdin, Command, Stdio};
 use std::sync::mpsc;
 use std::time::Duration;
 
@@ -58,11 +60,70 @@ fn current_tours(state: &State<P>) -> Vec<Vec<usize>> {
     state.populations().current().iter().map(|i| i.solution().clone()).collect()
 }
 
-/// Runs `f` in its own thread; `None` if it does not answer within the time limit.
-fn watchdog(f: impl FnOnce() -> String + Send + 'static) -> Option<String> {
-    let (tx, rx) = mpsc::channel();
-    std::thread::spawn(move || { let _ = tx.send(f()); });
-    rx.recv_timeout(Duration::from_secs(4)).ok()
+// ---------------------------------------------------------------- watchdog
+// Generation loops (`while !remaining.is_empty()`) may not terminate in a broken implementation and
+// then allocate without bound. Cases that run them are executed in a worker *process* (this binary
+// with `--worker`, address space limited): a worker that does not answer in time is killed, the case
+// is retried once in a fresh worker with a long limit, and only then reported as `timeout`.
+extern "C" {
+    fn setrlimit(resource: i32, rlim: *const [u64; 2]) -> i32;
+}
+fn limit_address_space(bytes: u64) {
+    const RLIMIT_AS: i32 = 9;
+    let lim = [bytes, bytes];
+    unsafe { setrlimit(RLIMIT_AS, &lim); }
+}
+struct Worker { child: Child, stdin: ChildStdin, rx: mpsc::Receiver<String> }
+impl Worker {
+    fn spawn() -> Worker {
+        let mut child = Command::new(std::env::current_exe().unwrap()).arg("--worker")
+            .stdin(Stdio::piped()).stdout(Stdio::piped()).stderr(Stdio::null()).spawn().expect("worker");
+        let stdin = child.stdin.take().unwrap();
+        let stdout = child.stdout.take().unwrap();
+        let (tx, rx) = mpsc::channel();
+        std::thread::spawn(move || {
+            for l in BufReader::new(stdout).lines() {
+                let Ok(l) = l else { break };
+                if tx.send(l).is_err() { break; }
+            }
+        });
+        Worker { child, stdin, rx }
+    }
+    fn ask(&mut self, input: &str, secs: u64) -> Option<String> {
+        writeln!(self.stdin, "{input}").ok()?;
+        self.stdin.flush().ok()?;
+        self.rx.recv_timeout(Duration::from_secs(secs)).ok()
+    }
+    fn kill(mut self) {
+        let _ = self.child.kill();
+        let _ = self.child.wait();
+    }
+}
+struct Guard { worker: Option<Worker> }
+impl Guard {
+    /// Output of the case, or `timeout` if two workers failed to produce it (hang or crash).
+    fn run(&mut self, input: &str) -> String {
+        for secs in [6, 60] {
+            let mut w = self.worker.take().unwrap_or_else(Worker::spawn);
+            match w.ask(input, secs) {
+                Some(o) => { self.worker = Some(w); return o; }
+                None => w.kill(),
+            }
+        }
+        "timeout".into()
+    }
+}
+fn worker_main() {
+    limit_address_space(6 << 30);
+    let stdin = std::io::stdin();
+    let stdout = std::io::stdout();
+    for l in stdin.lock().lines() {
+        let Ok(l) = l else { break };
+        let o = match Sx::parse(&l) { Some(sx) => run_inproc(&sx), None => "badinput".into() };
+        let mut h = stdout.lock();
+        let _ = writeln!(h, "{o}");
+        let _ = h.flush();
+    }
 }
 
 // ---------------------------------------------------------------- component-level cases
@@ -97,20 +158,17 @@ fn run_gen(a: &[Sx]) -> String {
     let (alpha, beta) = (par[0].float().unwrap(), par[1].float().unwrap());
     let ants = a[3].head().unwrap().1[0].nat().unwrap() as usize;
     let seed = a[4].head().unwrap().1[0].nat().unwrap();
-    let r = watchdog(move || {
-        let problem = tsp_of(n, &d);
-        let mut state = base_state(&problem, n, &pm, seed);
-        let gen = AcoGeneration::new::<P>(ants, alpha, beta, 1.0);
-        match catch(|| gen.execute(&problem, &mut state)) {
-            Some(Ok(())) => {
-                let ts = current_tours(&state);
-                list(["ok".to_string(), tours_s(&ts), witness(n, &ts)])
-            }
-            Some(Err(_)) => "err".into(),
-            None => "panic".into(),
+    let problem = tsp_of(n, &d);
+    let mut state = base_state(&problem, n, &pm, seed);
+    let gen = AcoGeneration::new::<P>(ants, alpha, beta, 1.0);
+    match catch(|| gen.execute(&problem, &mut state)) {
+        Some(Ok(())) => {
+            let ts = current_tours(&state);
+            list(["ok".to_string(), tours_s(&ts), witness(n, &ts)])
         }
-    });
-    r.unwrap_or("timeout".into())
+        Some(Err(_)) => "err".into(),
+        None => "panic".into(),
+    }
 }
 
 /// `(upd kind (pm ..) (pop (ind route obj|none)*))`
@@ -147,7 +205,7 @@ fn run_step(a: &[Sx]) -> String {
     let (alpha, beta) = (par[0].float().unwrap(), par[1].float().unwrap());
     let ants = a[4].head().unwrap().1[0].nat().unwrap() as usize;
     let seed = a[5].head().unwrap().1[0].nat().unwrap();
-    let r = watchdog(move || {
+    let r = (move || -> String {
         let problem = tsp_of(n, &d);
         let mut state = base_state(&problem, n, &pm, seed);
         let Ok(upd) = update_component(&kind) else { return "ctor-err".into() };
@@ -163,8 +221,8 @@ fn run_step(a: &[Sx]) -> String {
             Some(Ok(())) => list(["ok".to_string(), tours_s(&ts), witness(n, &ts), objs, mat_s("pm", n, read_pm(&state, n))]),
             _ => list(["upd-panic".to_string(), tours_s(&ts), witness(n, &ts), objs]),
         }
-    });
-    r.unwrap_or("timeout".into())
+    })();
+    r
 }
 
 // ---------------------------------------------------------------- template runs
@@ -286,7 +344,15 @@ fn run_args(a: &[Sx]) -> (String, u32, u32, u32, u64) {
     (a[0].atom().unwrap().to_string(), a[1].nat().unwrap() as u32, a[2].nat().unwrap() as u32, a[3].nat().unwrap() as u32, a[4].nat().unwrap())
 }
 
-fn run_case(input: &Sx) -> String {
+/// Runs a case; generation loops go through the guarded worker process.
+fn run_case(guard: &mut Guard, input: &Sx) -> String {
+    match input.head().unwrap().0 {
+        "gen" | "step" => guard.run(&input.render()),
+        _ => run_inproc(input),
+    }
+}
+
+fn run_inproc(input: &Sx) -> String {
     let (h, a) = input.head().unwrap();
     match h {
         "gen" => run_gen(a),
@@ -428,21 +494,26 @@ impl Gen {
 
 fn main() {
     quiet_panics();
+    if std::env::args().any(|x| x == "--worker") {
+        worker_main();
+        return;
+    }
     let a = args();
     let mut out = Out::new();
+    let mut guard = Guard { worker: None };
     if let Some(r) = a.replay {
         let sx = Sx::parse(&r).expect("bad replay input");
-        out.case("replay", &r, &run_case(&sx));
+        out.case("replay", &r, &run_case(&mut guard, &sx));
         out.finish();
         return;
     }
     let mut g = Gen { rng: Sm::new(a.seed) };
     let mut emit = |out: &mut Out, site: &str, input: String| -> String {
         let sx = Sx::parse(&input).unwrap();
-        let o = run_case(&sx);
+        let o = run_case(&mut guard, &sx);
         out.case(site, &input, &o);
         if o == "timeout" {
-            // a runaway worker thread may still be allocating: stop here, the case has been reported
+            // confirmed hang or crash: the case has been reported; every further case would cost a minute
             std::mem::replace(out, Out::new()).finish();
             std::process::exit(0);
         }
